@@ -132,7 +132,7 @@ class WirePropagateManager(WireManagerBase):
         # on coincident edges or blockMesh will whine;
         # it's better to just copy them
         for wire in self.wires:
-            for coincident in wire.coincidents:
+            for coincident in wire.coincident_list:
                 if coincident.grading.is_defined:
                     if coincident.is_aligned(wire):
                         wire.grading = coincident.grading
